@@ -91,14 +91,32 @@ struct KF
     }
 };
 
+// contextual variant ('>>=' rules): the first argument is the context (no_type with plain parse())
+template<int R, class NV>
+struct KFC
+{
+    template<class C, class... A>
+    NV operator()(C&&, A&&... a) const
+    {
+        Call c; c.slot = R;
+        (c.args.push_back(Obs<NV>::see(std::forward<A>(a))), ...);
+        std::vector<uint64_t> kids; for (auto& x : c.args) kids.push_back(x.h);
+        c.value = ref::rule_value_hash(R, kids);
+        NV res(Fresh{}, false, c.value);
+        c.result_vid = res.vid;
+        if (g_log) g_log->calls.push_back(c);
+        return res;
+    }
+};
+
 // slot patterns: t term, n nonterminal, e error ; kind f (functor) or d (no functor: left side constructed from the single nonterminal value)
 inline const std::vector<tpl::SlotInfo>& tk_slots()
 {
     static const std::vector<tpl::SlotInfo> s = []
     {
         const char* spec[] = {
-            "tn f", "t f", "ntn f", " f", "n d", "nt f", "ne f", "tnt f", "n f", "nn f", " f", "net f",
-            "t f", "tt f", "e f", "nnt f", "n d", "tn f", " f", "et f", "ntn f", "t f", "nn f", "nt f", "tnn f", "n f", "nnn f", "tne f"};
+            "tn f", "t f", "ntn c", " f", "n d", "nt c", "ne f", "tnt f", "n f", "nn c", " f", "net f",
+            "t f", "tt c", "e f", "nnt f", "n d", "tn c", " c", "et f", "ntn f", "t f", "nn c", "nt f", "tnn c", "n c", "nnn f", "tne f"};
         std::vector<tpl::SlotInfo> v;
         for (const char* sp : spec)
         {
@@ -130,30 +148,30 @@ auto make_tk()
         rules(
             park(ta, n0) >= KF<0, NV>{},
             n0(ta) >= KF<1, NV>{},
-            park(n0, ta, n0) >= KF<2, NV>{},
+            park(n0, ta, n0) >>= KFC<2, NV>{},
             park() >= KF<3, NV>{},
             park(n0),
-            park(n0, ta) >= KF<5, NV>{},
+            park(n0, ta) >>= KFC<5, NV>{},
             park(n0, error) >= KF<6, NV>{},
             park(ta, n0, ta) >= KF<7, NV>{},
             park(n0) >= KF<8, NV>{},
-            park(n0, n0) >= KF<9, NV>{},
+            park(n0, n0) >>= KFC<9, NV>{},
             park() >= KF<10, NV>{},
             park(n0, error, ta) >= KF<11, NV>{},
             park(ta) >= KF<12, NV>{},
-            park(ta, ta) >= KF<13, NV>{},
+            park(ta, ta) >>= KFC<13, NV>{},
             park(error) >= KF<14, NV>{},
             park(n0, n0, ta) >= KF<15, NV>{},
             park(n0),
-            park(ta, n0) >= KF<17, NV>{},
-            park() >= KF<18, NV>{},
+            park(ta, n0) >>= KFC<17, NV>{},
+            park() >>= KFC<18, NV>{},
             park(error, ta) >= KF<19, NV>{},
             park(n0, ta, n0) >= KF<20, NV>{},
             park(ta) >= KF<21, NV>{},
-            park(n0, n0) >= KF<22, NV>{},
+            park(n0, n0) >>= KFC<22, NV>{},
             park(n0, ta) >= KF<23, NV>{},
-            park(ta, n0, n0) >= KF<24, NV>{},
-            park(n0) >= KF<25, NV>{},
+            park(ta, n0, n0) >>= KFC<24, NV>{},
+            park(n0) >>= KFC<25, NV>{},
             park(n0, n0, n0) >= KF<26, NV>{},
             park(ta, n0, error) >= KF<27, NV>{}
         ),
